@@ -52,7 +52,23 @@ fn pathstr(p: &Value, e: usize) -> String {
     p.as_array().unwrap().iter().map(|s| emb(s.as_str().unwrap(), e)).collect::<Vec<_>>().join(".")
 }
 
+/// creates one node below the scope it is built in, addressed by a path relative to that scope
+struct Rel {
+    rel: String,
+    node: Node,
+}
+impl des::net::blocks::ModuleBlock for Rel {
+    type Ret = ();
+    fn build<A>(self, mut sim: des::net::SimBuilderScoped<'_, A>) {
+        sim.node(self.rel.as_str(), self.node);
+    }
+}
+
+/// `e`: bit 0 = name embedding; e / 2 = how nodes are created: 0 = SimBuilder::node with the full path, 1 = through a
+/// scoped builder rooted at the parent (relative path = last component), 2 = through a scoped builder rooted at the top-level
+/// ancestor (relative path = all further components)
 fn replay_one(obs: &Value, e: usize) -> Result<u64, Value> {
+    let via = e / 2;
     silence_panics();
     LOG.with(|l| l.borrow_mut().clear());
     let calls = obs["calls"].as_array().unwrap();
@@ -65,10 +81,15 @@ fn replay_one(obs: &Value, e: usize) -> Result<u64, Value> {
         let parent = p.rfind('.').map(|i| p[..i].to_string());
         let children: Vec<String> = oks.iter().filter(|o| o.len() > p.len() && o.starts_with(&format!("{p}.")) && !o[p.len() + 1..].contains('.')).map(|o| o[p.len() + 1..].to_string()).collect();
         let node = Node { stages: c["st"].as_u64().unwrap() as usize, children, parent };
-        let r = catch_unwind(AssertUnwindSafe(|| sim.node(p.as_str(), node)));
+        let r = catch_unwind(AssertUnwindSafe(|| match (via, p.find('.'), p.rfind('.')) {
+            (1, _, Some(i)) => sim.node(&p[..i], Rel { rel: p[i + 1..].to_string(), node }),
+            (2, Some(i), _) => sim.node(&p[..i], Rel { rel: p[i + 1..].to_string(), node }),
+            _ => sim.node(p.as_str(), node),
+        }));
         let exp_ok = c["res"] == "ok";
         if r.is_ok() != exp_ok {
-            return Err(json!({"field": "SimBuilder::node outcome", "call": k, "path": p, "expected": c["res"], "got": if r.is_ok() { "ok" } else { "panic" }}));
+            let how = ["SimBuilder::node", "SimBuilderScoped::node (scope = parent)", "SimBuilderScoped::node (scope = top-level ancestor)"][via];
+            return Err(json!({"field": format!("{how} outcome"), "call": k, "path": p, "expected": c["res"], "got": if r.is_ok() { "ok" } else { "panic" }}));
         }
         checks += 1;
     }
@@ -106,7 +127,7 @@ pub fn replay(args: &[String]) {
         if calls.iter().any(|c| c["res"] != "ok") || v["order"] != json!(calls.iter().filter(|c| c["res"] == "ok").map(|c| c["p"].clone()).collect::<Vec<_>>()) {
             s.nontrivial += 1;
         }
-        for e in 0..2 {
+        for e in 0..6 {
             s.replays += 1;
             watchdog::enter(|| json!({"calls": v["calls"], "emb": e}).to_string());
             match replay_one(&v, e) {
@@ -215,6 +236,7 @@ fn path_one(steps: &[Value], e: usize) -> Result<u64, Value> {
         match st["op"].as_str().unwrap() {
             "appended" => cur = cur.appended(&seg),
             "appended_gate" => cur = cur.appended_gate(&seg),
+            "appended_path" => cur = cur.appended(render(&st["rel"], e)),
             "parent" => match (st["res"].as_str().unwrap(), cur.parent()) {
                 ("none", None) => {}
                 ("some", Some(p)) => cur = p,
